@@ -26,6 +26,8 @@ use tokio::time::{Duration, Instant};
 
 use crate::dns::dnspkt;
 use crate::dns::outquery;
+#[cfg(erbium_verif)]
+use erbium_net::sim::tokio;
 
 #[cfg(test)]
 mod test;
